@@ -4,9 +4,10 @@ against the property text, independently of the models."""
 
 
 class Q:
-    def __init__(self, rng, depth):
+    def __init__(self, rng, depth, force_with=False):
         self.r = rng
         self.depth = depth
+        self.force_with = force_with
         self.tables_all = []       # (schema, table) in textual order, all levels
         self.tables_from = []      # tables reachable through the top-level FROM clause
         self.tables_join = []
@@ -45,7 +46,7 @@ class Q:
             s = "dw"                                   # a dotted table part needs its own quotes and a schema part
         for lst in sink:
             lst.append((s, t))
-        alias = self.pick([None, None, "x1", "y2"])
+        alias = self.pick([None, None, None, "x1", "y2", "b", "X"])
         if s is None:
             name = t if self.r.random() < 0.8 else "`%s`" % t
         elif "." in s or "." in t or "-" in s:
@@ -85,7 +86,17 @@ class Q:
             return "%s(%s)" % (self.pick(["sum", "max", "MIN"]), a), ca
         if k < 0.82:
             return self.pick(["CURRENT_DATE", "CURRENT_TIMESTAMP", "1", "'x'"]), []
-        if k < 0.9 and allow_sub and self.depth > 0:
+        if k < 0.86:
+            # window functions: arguments, PARTITION BY and ORDER BY items are read by the clause; an integer in the window's ORDER BY is a constant
+            a, ca = self.col(quals)
+            b, cb = self.col(quals)
+            j = self.r.random()
+            if j < 0.4:
+                return "ROW_NUMBER() OVER (PARTITION BY %s ORDER BY 1)" % a, ca
+            if j < 0.7:
+                return "sum(%s) OVER (ORDER BY %s DESC, 2)" % (a, b), ca + cb
+            return "max(%s) OVER (PARTITION BY %s)" % (a, b), ca + cb
+        if k < 0.92 and allow_sub and self.depth > 0:
             return "(" + self.sub([self.tables_all]) + ")", []
         a, ca = self.col(quals)
         return "CASE WHEN %s > 1 THEN %s ELSE 0 END" % (a, a), ca + ca
@@ -115,7 +126,7 @@ class Q:
         r = self.r
         # count(*) is reported as the wildcard `*`, count(1) as one anonymous reference: handled below per item text
         with_text = ""
-        if top and self.depth > 0 and r.random() < 0.2:
+        if top and self.depth > 0 and (self.force_with or r.random() < 0.25):
             q = Q(r, self.depth - 1)
             with_text = "WITH w AS (%s) " % q.build(top=False)
             self.tables_all.extend(q.tables_all)
@@ -141,6 +152,9 @@ class Q:
             else:
                 jt, q = self.table_ref([join_tables_all, self.tables_join])
                 quals.append(q)
+            if not join_texts and " " not in from_texts[-1] and not from_texts[-1].startswith("(") and r.random() < 0.12:
+                join_texts.append("NATURAL %s %s" % (self.pick(["JOIN", "LEFT JOIN"]), jt))      # no condition; the left table carries no alias
+                continue
             c, cc = self.cond_simple(quals)
             join_texts.append("%s %s ON %s" % (self.pick(["JOIN", "LEFT JOIN", "INNER JOIN", "LEFT OUTER JOIN"]), jt, c))
             join_cols += cc
